@@ -855,7 +855,10 @@ def install_monitor():
         if same:
           same = pytd_utils.Print(again) == pytd_utils.Print(result)
         rec["idempotent"] = bool(same)
-        if not same or cmp.problems:
+        if not unit_eq(again, result):     # the second run must only widen, too
+          cmp2 = compare_units(result, again, den, lossless=False, max_union=full["max_union"] or 7)
+          rec["problems"] = cmp.problems + [dict(p, stage="re-optimisation") for p in cmp2.problems]
+        if not same or rec["problems"]:
           rec["_node"], rec["_deps"] = node, deps     # for off-line classification
           rec["before_text"] = pytd_utils.Print(node)
           rec["after_text"] = pytd_utils.Print(result)
